@@ -7,10 +7,10 @@
 //
 // WHAT IS EXPLORED (exhaustive breadth-first search, never sampled)
 //   configuration = ( Chunk, maximum, stream length n, position of the one '\n' or none, reader mode )
-//       Chunk    : 1, 2, 3 with maximum 1..4 (quick) / 1..6 (thorough); Chunk 64 with maximum 0, 1 (sanity)
+//       Chunk    : 1, 2, 3 with maximum 1..4 (quick) / 1..5 (thorough); Chunk 64 with maximum 0, 1 (sanity)
 //       stream   : n bytes, byte at offset i is 'a' + i (identifies its offset); no '\n', or one '\n'
 //                  at offset p for every p in 0..n-1;  n in 0..8 (quick) / 0..10 (thorough)
-//                  => 45 streams x 14 = 630 configurations (quick), 66 x 20 = 1320 (thorough)
+//                  => 45 streams x 14 = 630 configurations (quick), 66 x 17 = 1122 (thorough)
 //       eol      : lf_crlf, source std::string
 //       reader   : "any"  - every legal answer: 1..min(length asked, bytes remaining) bytes per
 //                           call, 0 iff nothing remains; the answer is an environment choice that
@@ -41,7 +41,7 @@
 //                  i belongs to shard i % nshards; each is explored completely (both reader
 //                  modes) by exactly one shard.
 //   cost         : per shard of 16, alone on a core: quick ~1.3 s (gcc -O1) / ~10 s (clang ASan+UBSan),
-//                  thorough ~11 s (gcc) / ~90 s (ASan+UBSan).
+//                  thorough ~7 s (gcc) / ~50 s (ASan+UBSan).
 //
 // REFERENCE MODEL (struct Model below: integer arithmetic from doc/Inputs-and-Parsing.md,
 //   "Incremental Input", not from the code) and the invariants checked after EVERY operation: see
@@ -1116,7 +1116,7 @@ static std::vector< Config > configurations( bool thorough )
       for( int i = 0; i < n; ++i ) nls.push_back( i );
       for( int nl : nls ) {
          for( int chunk : { 1, 2, 3 } )
-            for( int maximum = 1; maximum <= ( thorough ? 6 : 4 ); ++maximum ) {
+            for( int maximum = 1; maximum <= ( thorough ? 5 : 4 ); ++maximum ) {
                Config c;
                c.chunk = chunk;
                c.maximum = maximum;
@@ -1246,7 +1246,7 @@ int main( int argc, char** argv )
    if( vf::st.counters.count( "configurations stopped by the depth cap" ) ) vf::st.exhaustive = false;
 
    emit_violations();
-   vf::st.note = std::string( "C07 buffer_input BFS " ) + ( thorough ? "thorough" : "quick" ) + ": Chunk{1,2,3} x maximum 1.." + ( thorough ? "6" : "4" ) + " + Chunk 64 x maximum{0,1}; stream n=0.." + ( thorough ? "10" : "8" ) + " (byte i = 'a'+i), no LF or one LF at every offset; ops require(k)/size(k)/end(k) k=0.." + std::to_string( g_kmax ) + ", empty, bump/bump_in_this_line/bump_to_next_line(1.." + std::to_string( g_jmax ) + " <= occupied), discard (only without marks), mark/restore/drop/fail on a stack of <=" + std::to_string( g_maxmarks ) + " auto_rewind guards; reader answers: every legal short read (1..min(len,remaining), 0 iff at end) as part of the history, plus a control BFS with full reads only (counters full-reads *); every configuration explored breadth-first to the FIXPOINT of canonical states (cur,end,buffer start,reader offset,marks,overflow), no depth bound (safety cap " + std::to_string( g_depthcap ) + ", reaching it is counted and clears exhaustive); st.states/transitions/evaluations = any-reads run; configuration i -> shard i % nshards";
+   vf::st.note = std::string( "C07 buffer_input BFS " ) + ( thorough ? "thorough" : "quick" ) + ": Chunk{1,2,3} x maximum 1.." + ( thorough ? "5" : "4" ) + " + Chunk 64 x maximum{0,1}; stream n=0.." + ( thorough ? "10" : "8" ) + " (byte i = 'a'+i), no LF or one LF at every offset; ops require(k)/size(k)/end(k) k=0.." + std::to_string( g_kmax ) + ", empty, bump/bump_in_this_line/bump_to_next_line(1.." + std::to_string( g_jmax ) + " <= occupied), discard (only without marks), mark/restore/drop/fail on a stack of <=" + std::to_string( g_maxmarks ) + " auto_rewind guards; reader answers: every legal short read (1..min(len,remaining), 0 iff at end) as part of the history, plus a control BFS with full reads only (counters full-reads *); every configuration explored breadth-first to the FIXPOINT of canonical states (cur,end,buffer start,reader offset,marks,overflow), no depth bound (safety cap " + std::to_string( g_depthcap ) + ", reaching it is counted and clears exhaustive); st.states/transitions/evaluations = any-reads run; configuration i -> shard i % nshards";
    vf::finish();
    return 0;
 }
